@@ -56,6 +56,31 @@ fn shapes() -> Vec<Case> {
     vec![mk(&[(8, 3)], 5, 0), mk(&[(8, 3), (4, 9)], 6, 0), mk(&[(8, 9), (2, 3)], 3, 1), mk(&[(4, 17)], 2, 0)]
 }
 
+/// C18: digest lines of the Merkle-opening circuits (built twice each).
+pub fn digest_lines() -> Vec<String> {
+    let mut lines = Vec::new();
+    for (si, case) in shapes().iter().enumerate() {
+        let one = || -> Result<String, String> {
+            let (c, _) = crate::mmcs::capture_kb4(case, 7 + si as u64).ok_or("no circuit captured")?;
+            let packing = TablePacking::new(1, 1);
+            let npo_prep: Vec<Box<dyn NpoPreprocessor<KB>>> = vec![Box::new(Poseidon2Preprocessor), Box::new(RecomposePreprocessor::default())];
+            let mut air_builders = poseidon2_air_builders::<_, 4>();
+            air_builders.extend(recompose_air_builders(1, false));
+            let (ad, pc, npc) = get_airs_and_degrees_with_prep::<KoalaBearConfig, _, 4>(&c, &packing, &npo_prep, &air_builders, ConstraintProfile::Standard).map_err(|e| format!("{e:?}"))?;
+            let (airs, degs): (Vec<_>, Vec<usize>) = ad.into_iter().unzip();
+            let pd = ProverData::from_airs_and_degrees(&config::koala_bear(), &airs, &degs);
+            Ok(crate::npodigest::line(&format!("merkle-opening-shape{si}"), &c, &pc, &npc, &airs, &degs, &pd))
+        };
+        let a = catch_unwind(AssertUnwindSafe(one)).unwrap_or_else(|_| Err("panic".into()));
+        let b = catch_unwind(AssertUnwindSafe(one)).unwrap_or_else(|_| Err("panic".into()));
+        match (a, b) {
+            (Ok(a), Ok(b)) => lines.push(format!("{a} same_process_rebuild={}", a == b)),
+            (a, b) => lines.push(format!("npo merkle-opening-shape{si} ERROR {:?} {:?}", a.err(), b.err())),
+        }
+    }
+    lines
+}
+
 pub fn sweep(seed: u64) -> Value {
     let mut out = Vec::new();
     let (mut cells, mut rejected, mut accepted_bound, mut accepted_unread) = (0u64, 0u64, Vec::<Value>::new(), 0u64);
